@@ -139,3 +139,472 @@ def def_nodes(cfg: pf.CFG, name: str) -> List[pf.Node]:
         elif n.kind == 'with' and any(i.optional_vars is not None and name in pf.names_in(i.optional_vars) for i in n.ast.items):  # type: ignore[attr-defined]
             out.append(n)
     return out
+
+
+# --------------------------------------------------------------------------------------
+# abstract dicts: what does a dict-valued argument contain when a given call is made?
+# --------------------------------------------------------------------------------------
+
+
+class Undecided(Exception):
+    """The dict escapes to code the evaluation cannot follow (never a verdict)."""
+
+
+class AbsDict:
+    """Keys known to be present -> value expression (resolved into the scope of the analysed function; None = present, value unknown).
+    `open` = further, unknown keys may be present (they cannot remove a known key, but a later unknown update may override its value:
+    the evaluation turns overridden values into None)."""
+
+    def __init__(self, items: Optional[Dict[str, Optional[ast.expr]]] = None, open_: bool = False):
+        self.items: Dict[str, Optional[ast.expr]] = dict(items or {})
+        self.open = open_
+
+    def copy(self) -> 'AbsDict':
+        return AbsDict(self.items, self.open)
+
+    def merged(self, other: 'AbsDict') -> 'AbsDict':
+        """self updated by other (other's keys win)."""
+        out = self.copy()
+        if other.open:
+            out.open = True
+            for k in out.items:
+                out.items[k] = None
+        out.items.update(other.items)
+        return out
+
+    def show(self) -> str:
+        inner = ', '.join(f'{k!r}: {pf.nsrc(v) if v is not None else "?"}' for k, v in self.items.items())
+        return '{' + inner + (', **?' if self.open else '') + '}'
+
+
+_UNKNOWN = object()
+_LOGGERS = ('log', 'logger', 'logging')
+
+
+class _Subst(ast.NodeTransformer):
+    def __init__(self, env: Dict[str, ast.expr]):
+        self.env = env
+
+    def visit_Name(self, node: ast.Name):
+        if isinstance(node.ctx, ast.Load) and node.id in self.env:
+            import copy
+            return copy.deepcopy(self.env[node.id])
+        return node
+
+    def visit_Lambda(self, node):
+        return node
+
+
+class DictFlow:
+    """Path-sensitive abstract evaluation of how a dict is built inside one function: dict literals, `dict(...)`, `{**a, 'k': v}`,
+    `a | b`, `d['k'] = v`, `d.update(...)`, `d.setdefault`, `d.pop` / `del d['k']`, `d.copy()`, conditional expressions, and calls of
+    plain same-class helper methods / module-level functions that return such a dict (evaluated the same way, parameters substituted).
+    `at_call(call, expr)` lists the abstract dicts `expr` can denote when `call` is evaluated, one per path.  Values are returned with
+    single-definition locals expanded.  Raises Undecided when the dict escapes (aliasing, passed to unknown code, computed keys)."""
+
+    MAX_STATES = 128
+
+    def __init__(self, m: pf.Module, fn: pf.FuncDef, methods: Optional[Dict[str, pf.FuncDef]] = None, env: Optional[Dict[str, ast.expr]] = None,
+                 depth: int = 3):
+        self.m = m
+        self.fn = fn
+        self.methods = methods or {}
+        self.env = env or {}
+        self.depth = depth
+        self.params = {a.arg for a in fn.args.posonlyargs + fn.args.args + fn.args.kwonlyargs}
+        self.recv = fn.args.args[0].arg if (fn.args.args and self.methods) else None
+        self.target: Optional[ast.Call] = None
+        self.target_expr: Optional[ast.expr] = None
+        self.hits: List[AbsDict] = []
+        self.returns: List[AbsDict] = []
+        self.helpers_followed: List[str] = []
+
+    # -- values ---------------------------------------------------------------------
+    def value(self, v: ast.expr) -> Optional[ast.expr]:
+        import copy
+        v2 = pf.expand_locals(self.fn, v)
+        if self.env:
+            v2 = _Subst(self.env).visit(copy.deepcopy(v2))
+        local = set(pf.assignments(self.fn)) - self.params
+        for n in ast.walk(v2):
+            if isinstance(n, ast.Name) and isinstance(n.ctx, ast.Load) and n.id in local and n.id not in self.env:
+                return None  # a local with several definitions: value not resolved
+        return v2
+
+    # -- expressions ----------------------------------------------------------------
+    def eval(self, e: ast.expr, state: Dict[str, object]) -> List[AbsDict]:
+        if isinstance(e, ast.Dict):
+            alts = [AbsDict()]
+            for k, v in zip(e.keys, e.values):
+                if k is None:
+                    subs = self.eval(v, state)
+                    alts = [a.merged(s) for a in alts for s in subs]
+                else:
+                    ks = pf.const_str(k)
+                    if ks is None:
+                        raise Undecided(f'computed key `{pf.nsrc(k)}`')
+                    val = self.value(v)
+                    for a in alts:
+                        a.items[ks] = val
+            return alts
+        if isinstance(e, ast.Name):
+            if e.id in state:
+                if state[e.id] is _UNKNOWN:
+                    raise Undecided(f'`{e.id}` is built or changed by code the evaluation cannot follow')
+                return [state[e.id].copy()]  # type: ignore[union-attr]
+            if e.id in self.env:
+                raise Undecided(f'parameter `{e.id}` carries the dict')
+            raise Undecided(f'`{e.id}` is not a locally built dict')
+        if isinstance(e, ast.IfExp):
+            return self.eval(e.body, state) + self.eval(e.orelse, state)
+        if isinstance(e, ast.BinOp) and isinstance(e.op, ast.BitOr):
+            return [a.merged(b) for a in self.eval(e.left, state) for b in self.eval(e.right, state)]
+        if isinstance(e, ast.Call):
+            name = pf.dotted(e.func)
+            if name == 'dict':
+                alts = [AbsDict()]
+                if len(e.args) > 1:
+                    raise Undecided('dict() with several positional arguments')
+                if e.args:
+                    alts = self.eval(e.args[0], state)
+                for k in e.keywords:
+                    if k.arg is None:
+                        subs = self.eval(k.value, state)
+                        alts = [a.merged(s) for a in alts for s in subs]
+                    else:
+                        val = self.value(k.value)
+                        for a in alts:
+                            a.items[k.arg] = val
+                return alts
+            if name in ('copy.copy', 'copy.deepcopy') and len(e.args) == 1:
+                return self.eval(e.args[0], state)
+            if isinstance(e.func, ast.Attribute) and e.func.attr == 'copy' and not e.args and not e.keywords:
+                return self.eval(e.func.value, state)
+            callee = self._callee(e)
+            if callee is not None:
+                return self._call(callee, e)
+        raise Undecided(f'`{pf.nsrc(e)[:60]}` is not a recognised dict construction')
+
+    def _callee(self, e: ast.Call) -> Optional[pf.FuncDef]:
+        f = e.func
+        if self.recv is not None and isinstance(f, ast.Attribute) and isinstance(f.value, ast.Name) and f.value.id == self.recv:
+            return self.methods.get(f.attr)
+        if isinstance(f, ast.Name):
+            try:
+                return self.m.func(f.id)
+            except Exception:  # noqa: BLE001
+                return None
+        return None
+
+    def _call(self, h: pf.FuncDef, e: ast.Call) -> List[AbsDict]:
+        if self.depth <= 0:
+            raise Undecided(f'helper nesting too deep at `{h.name}`')
+        if isinstance(h, ast.AsyncFunctionDef) or h.args.vararg or h.args.kwarg or h.args.posonlyargs:
+            raise Undecided(f'helper `{h.name}` is a coroutine / takes star arguments')
+        if any(pf.dotted(d) not in ('staticmethod',) for d in h.decorator_list):
+            raise Undecided(f'helper `{h.name}` is decorated')
+        if any(isinstance(x, (ast.Yield, ast.YieldFrom)) for x in pf.walk_shallow(h)):
+            raise Undecided(f'helper `{h.name}` is a generator')
+        params = [a.arg for a in h.args.args]
+        is_method = isinstance(e.func, ast.Attribute) and not any(pf.dotted(d) == 'staticmethod' for d in h.decorator_list)
+        env: Dict[str, ast.expr] = {}
+        if is_method:
+            if not params:
+                raise Undecided(f'helper `{h.name}` has no self parameter')
+            if params[0] != self.recv:
+                env[params[0]] = ast.Name(id=self.recv, ctx=ast.Load())
+            params = params[1:]
+        if any(isinstance(a, ast.Starred) for a in e.args) or any(k.arg is None for k in e.keywords) or len(e.args) > len(params):
+            raise Undecided(f'call of `{h.name}` with star arguments')
+        bound: Dict[str, ast.expr] = dict(zip(params, e.args))
+        kwonly = [a.arg for a in h.args.kwonlyargs]
+        for k in e.keywords:
+            if k.arg in bound or k.arg not in params + kwonly:
+                raise Undecided(f'call of `{h.name}`: keyword {k.arg} does not bind')
+            bound[k.arg] = k.value  # type: ignore[index]
+        defaults = dict(zip(params[len(params) - len(h.args.defaults):], h.args.defaults))
+        for p, d in zip(kwonly, h.args.kw_defaults):
+            if d is not None:
+                defaults[p] = d
+        for p in params + kwonly:
+            if p in bound:
+                v = self.value(bound[p])
+                if v is None:
+                    raise Undecided(f'argument `{p}` of `{h.name}` is not resolved')
+                env[p] = v
+            elif p in defaults:
+                env[p] = defaults[p]
+            else:
+                raise Undecided(f'call of `{h.name}`: parameter {p} unbound')
+        reassigned = {n.id for n in pf.walk_shallow(h) if isinstance(n, ast.Name) and isinstance(n.ctx, (ast.Store, ast.Del))}
+        if reassigned & set(env):
+            raise Undecided(f'helper `{h.name}` rebinds a parameter')
+        sub = DictFlow(self.m, h, self.methods if is_method else {}, env, self.depth - 1)
+        sub.run_body()
+        if not sub.returns:
+            raise Undecided(f'helper `{h.name}` returns no recognised dict')
+        self.helpers_followed.append(h.name)
+        self.helpers_followed.extend(sub.helpers_followed)
+        return sub.returns
+
+    # -- statements -----------------------------------------------------------------
+    def at_call(self, call: ast.Call, expr: ast.expr) -> List[AbsDict]:
+        self.target, self.target_expr = call, expr
+        self.hits = []
+        self.run_body()
+        if not self.hits:
+            raise Undecided(f'`{pf.nsrc(call.func)}(...)` is not reached by the statement-level evaluation')
+        return self.hits
+
+    def run_body(self) -> None:
+        self._block(self.fn.body, [{}])
+
+    def _visit_exprs(self, node: ast.AST, state: Dict[str, object]) -> None:
+        """An expression (or simple statement) is evaluated in `state`: does it contain the target call?"""
+        if self.target is None:
+            return
+        if any(n is self.target for n in pf.walk_shallow(node)):
+            assert self.target_expr is not None
+            self.hits.extend(self.eval(self.target_expr, state))
+
+    def _mentions(self, node: ast.AST, state: Dict[str, object]) -> List[str]:
+        return sorted({n.id for n in pf.walk_shallow(node) if isinstance(n, ast.Name) and n.id in state})
+
+    def _escape_uses(self, node: ast.AST, state: Dict[str, object]) -> None:
+        """Uses of a tracked dict that may change it behind our back turn it into UNKNOWN."""
+        par: Dict[int, ast.AST] = {}
+        for p in pf.walk_shallow(node):
+            for c in ast.iter_child_nodes(p):
+                par[id(c)] = p
+        for n in pf.walk_shallow(node):
+            if not (isinstance(n, ast.Name) and n.id in state and state[n.id] is not _UNKNOWN):
+                continue
+            p = par.get(id(n))
+            if isinstance(p, ast.keyword):
+                if p.arg is None:
+                    continue  # **d: the callee receives a copy
+                p = par.get(id(p))
+                if isinstance(p, ast.Call) and p is not self.target:
+                    head = (pf.dotted(p.func) or '').split('.')[0]
+                    if head not in _LOGGERS and pf.dotted(p.func) != 'dict':
+                        state[n.id] = _UNKNOWN
+                continue
+            if isinstance(n.ctx, (ast.Store, ast.Del)):
+                state[n.id] = _UNKNOWN
+            elif isinstance(p, ast.Call) and p is not self.target and (n in p.args or any(k.value is n for k in p.keywords)):
+                head = (pf.dotted(p.func) or '').split('.')[0]
+                if head in _LOGGERS or pf.dotted(p.func) in ('len', 'str', 'repr', 'print', 'dict', 'json.dumps', 'sorted', 'list', 'bool'):
+                    continue
+                state[n.id] = _UNKNOWN
+            elif isinstance(p, ast.Attribute) and p.value is n:
+                gp = par.get(id(p))
+                if isinstance(gp, ast.Call) and gp.func is p and p.attr in ('get', 'keys', 'values', 'items', 'copy'):
+                    continue
+                state[n.id] = _UNKNOWN
+            elif isinstance(p, (ast.Subscript,)) and p.value is n and isinstance(p.ctx, ast.Load):
+                continue
+            elif isinstance(p, (ast.FormattedValue, ast.Compare, ast.BoolOp, ast.UnaryOp, ast.If, ast.IfExp, ast.Dict, ast.keyword, ast.Call, ast.Return, ast.Expr,
+                                ast.BinOp)):
+                # read-only contexts ({**d}, d | x, `if d:`, the target call itself)
+                continue
+            else:
+                state[n.id] = _UNKNOWN
+
+    def _simple(self, st: ast.stmt, state: Dict[str, object]) -> List[Dict[str, object]]:
+        """Effect of one simple statement; may fork."""
+        # the target call may sit inside this statement: evaluate before the statement's own effect
+        self._visit_exprs(st, state)
+        if isinstance(st, (ast.Assign, ast.AnnAssign)) and getattr(st, 'value', None) is not None:
+            targets = st.targets if isinstance(st, ast.Assign) else [st.target]
+            if len(targets) == 1 and isinstance(targets[0], ast.Name):
+                name = targets[0].id
+                value = st.value.value if isinstance(st.value, ast.Await) else st.value
+                if isinstance(value, ast.Name) and value.id in state and state[value.id] is not _UNKNOWN:
+                    # alias: later mutation through either name is not followed
+                    state[value.id] = _UNKNOWN
+                    state[name] = _UNKNOWN
+                    return [state]
+                try:
+                    alts = self.eval(value, state)  # type: ignore[arg-type]
+                except Undecided:
+                    self._escape_uses(st.value, state)  # type: ignore[arg-type]
+                    state[name] = _UNKNOWN
+                    return [state]
+                out = []
+                for a in alts:
+                    s2 = dict(state)
+                    s2[name] = a
+                    out.append(s2)
+                return out
+            if len(targets) == 1 and isinstance(targets[0], ast.Subscript) and isinstance(targets[0].value, ast.Name) and targets[0].value.id in state:
+                d = targets[0].value.id
+                if state[d] is not _UNKNOWN:
+                    ks = pf.const_str(targets[0].slice)
+                    if ks is None:
+                        state[d] = _UNKNOWN
+                    else:
+                        nd = state[d].copy()  # type: ignore[union-attr]
+                        nd.items[ks] = self.value(st.value)  # type: ignore[arg-type]
+                        state[d] = nd
+                self._escape_uses(st.value, state)  # type: ignore[arg-type]
+                return [state]
+        if isinstance(st, ast.AugAssign) and isinstance(st.target, ast.Name) and st.target.id in state and isinstance(st.op, ast.BitOr):
+            d = st.target.id
+            if state[d] is not _UNKNOWN:
+                try:
+                    alts = self.eval(st.value, state)
+                    out = []
+                    for a in alts:
+                        s2 = dict(state)
+                        s2[d] = state[d].merged(a)  # type: ignore[union-attr]
+                        out.append(s2)
+                    return out
+                except Undecided:
+                    state[d] = _UNKNOWN
+            return [state]
+        if isinstance(st, ast.Delete):
+            for t in st.targets:
+                if isinstance(t, ast.Subscript) and isinstance(t.value, ast.Name) and t.value.id in state and state[t.value.id] is not _UNKNOWN:
+                    ks = pf.const_str(t.slice)
+                    nd = state[t.value.id].copy()  # type: ignore[union-attr]
+                    if ks is None or nd.open:
+                        state[t.value.id] = _UNKNOWN
+                    else:
+                        nd.items.pop(ks, None)
+                        state[t.value.id] = nd
+                else:
+                    self._escape_uses(t, state)
+            return [state]
+        if isinstance(st, ast.Expr):
+            v = st.value.value if isinstance(st.value, ast.Await) else st.value
+            if isinstance(v, ast.Call) and isinstance(v.func, ast.Attribute) and isinstance(v.func.value, ast.Name) and v.func.value.id in state \
+                    and state[v.func.value.id] is not _UNKNOWN:
+                d = v.func.value.id
+                cur: AbsDict = state[d]  # type: ignore[assignment]
+                meth = v.func.attr
+                try:
+                    if meth == 'update':
+                        alts = [cur.copy()]
+                        if len(v.args) > 1:
+                            raise Undecided('update() with several positional arguments')
+                        if v.args:
+                            alts = [cur.merged(s) for s in self.eval(v.args[0], state)]
+                        for k in v.keywords:
+                            if k.arg is None:
+                                alts = [a.merged(s) for a in alts for s in self.eval(k.value, state)]
+                            else:
+                                for a in alts:
+                                    a.items[k.arg] = self.value(k.value)
+                        out = []
+                        for a in alts:
+                            s2 = dict(state)
+                            s2[d] = a
+                            out.append(s2)
+                        return out
+                    if meth == 'setdefault' and len(v.args) == 2 and pf.const_str(v.args[0]) is not None:
+                        ks = pf.const_str(v.args[0])
+                        nd = cur.copy()
+                        if ks not in nd.items:
+                            nd.items[ks] = None if nd.open else self.value(v.args[1])  # type: ignore[index]
+                        state[d] = nd
+                        return [state]
+                    if meth == 'pop' and v.args and pf.const_str(v.args[0]) is not None and not cur.open:
+                        nd = cur.copy()
+                        nd.items.pop(pf.const_str(v.args[0]), None)  # type: ignore[arg-type]
+                        state[d] = nd
+                        return [state]
+                    if meth == 'clear' and not v.args:
+                        state[d] = AbsDict()
+                        return [state]
+                    if meth in ('get', 'keys', 'values', 'items'):
+                        return [state]
+                    raise Undecided(f'`{d}.{meth}(...)`')
+                except Undecided:
+                    state[d] = _UNKNOWN
+                    return [state]
+        self._escape_uses(st, state)
+        return [state]
+
+    def _kill_written(self, stmts: Sequence[ast.stmt], state: Dict[str, object]) -> None:
+        """Names (re)bound or possibly mutated anywhere in stmts become UNKNOWN (loops, exception handlers)."""
+        for st in stmts:
+            for n in pf.walk_shallow(st):
+                if isinstance(n, ast.Name) and n.id in state:
+                    state[n.id] = _UNKNOWN
+
+    def _block(self, stmts: Sequence[ast.stmt], states: List[Dict[str, object]]) -> List[Dict[str, object]]:
+        """Returns the states that fall off the end of the block."""
+        for st in stmts:
+            if not states:
+                return []
+            if len(states) > self.MAX_STATES:
+                raise Undecided('too many paths')
+            nxt: List[Dict[str, object]] = []
+            for state in states:
+                state = dict(state)
+                if isinstance(st, ast.If):
+                    self._visit_exprs(st.test, state)
+                    self._escape_uses(st.test, state)
+                    nxt += self._block(st.body, [dict(state)])
+                    nxt += self._block(st.orelse, [dict(state)]) if st.orelse else [state]
+                elif isinstance(st, (ast.For, ast.AsyncFor, ast.While)):
+                    hdr = st.iter if isinstance(st, (ast.For, ast.AsyncFor)) else st.test
+                    self._kill_written(st.body, state)
+                    if isinstance(st, (ast.For, ast.AsyncFor)):
+                        for n in ast.walk(st.target):
+                            if isinstance(n, ast.Name):
+                                state[n.id] = _UNKNOWN
+                    self._visit_exprs(hdr, state)
+                    self._escape_uses(hdr, state)
+                    inner = self._block(st.body, [dict(state)])
+                    del inner
+                    nxt += self._block(st.orelse, [dict(state)]) if st.orelse else [state]
+                elif isinstance(st, (ast.With, ast.AsyncWith)):
+                    for i in st.items:
+                        self._visit_exprs(i.context_expr, state)
+                        self._escape_uses(i.context_expr, state)
+                        if i.optional_vars is not None:
+                            for n in ast.walk(i.optional_vars):
+                                if isinstance(n, ast.Name):
+                                    state[n.id] = _UNKNOWN
+                    nxt += self._block(st.body, [state])
+                elif isinstance(st, ast.Try):
+                    body_out = self._block(st.body, [dict(state)])
+                    if st.orelse:
+                        body_out = self._block(st.orelse, body_out)
+                    hstate = dict(state)
+                    self._kill_written(st.body, hstate)
+                    outs = list(body_out)
+                    for h in st.handlers:
+                        hs = dict(hstate)
+                        if h.name:
+                            hs[h.name] = _UNKNOWN
+                        outs += self._block(h.body, [hs])
+                    if st.finalbody:
+                        outs = self._block(st.finalbody, outs)
+                        # the finally body also runs on the abrupt exits; evaluate it once more for target calls placed there
+                        fs = dict(hstate)
+                        self._block(st.finalbody, [fs])
+                    nxt += outs
+                elif isinstance(st, ast.Return):
+                    if st.value is not None:
+                        self._visit_exprs(st.value, state)
+                        if self.target is None:
+                            self.returns.extend(self.eval(st.value, state))
+                    elif self.target is None:
+                        raise Undecided(f'`{self.fn.name}` has a bare return')
+                elif isinstance(st, ast.Raise):
+                    self._visit_exprs(st, state)
+                elif isinstance(st, (ast.Break, ast.Continue)):
+                    pass  # only inside loops, whose bodies are evaluated for target calls only
+                elif isinstance(st, (ast.FunctionDef, ast.AsyncFunctionDef, ast.ClassDef)):
+                    for n in ast.walk(st):
+                        if isinstance(n, ast.Name) and n.id in state:
+                            state[n.id] = _UNKNOWN  # closure may mutate it
+                    nxt.append(state)
+                elif hasattr(ast, 'Match') and isinstance(st, ast.Match):
+                    raise Undecided('match statement')
+                else:
+                    nxt += self._simple(st, state)
+            states = nxt
+        return states
